@@ -32,7 +32,7 @@ func TestMain(m *testing.M) {
 		childMain()
 		return
 	}
-	kit.TestMain(m, 5000, 40000)
+	kit.TestMain(m, 8000, 200000)
 }
 
 func TestC14(t *testing.T) {
